@@ -46,17 +46,19 @@ type tgStep struct {
 }
 
 type tgReplayIn struct {
-	Threads []string   `json:"threads"`
-	Paths   [][]tgStep `json:"paths"`
-	Targets []string   `json:"targets"` // "threadgroup", "rhp4", "stub-lateadd" (self-test)
+	CtxThreads []string   `json:"ctxThreads"` // threads that join with AddContext(parent); CancelParent cancels that parent
+	Threads    []string   `json:"threads"`
+	Paths      [][]tgStep `json:"paths"`
+	Targets    []string   `json:"targets"` // "threadgroup", "rhp4", "stub-lateadd" (self-test)
 }
 
 // a tgTarget is something whose shutdown is a thread group
 type tgTarget interface {
-	add(t string)  // a thread asks to join (outcome observed later)
-	done(t string) // the thread finishes
-	stop()         // Stop / Close is called (asynchronously)
-	stop2()        // Stop / Close is called a second time while the first call may still be waiting
+	add(t string)          // a thread asks to join (outcome observed later)
+	done(t string)         // the thread finishes
+	stop()                 // Stop / Close is called (asynchronously)
+	stop2()                // Stop / Close is called a second time while the first call may still be waiting
+	cancelParent(t string) // the parent context of t's AddContext is cancelled (no-op where members have none)
 	observe() tgObs
 	cleanup() bool
 }
@@ -64,24 +66,79 @@ type tgTarget interface {
 // ---- threadgroup.ThreadGroup used directly
 
 type tgDirect struct {
-	tg      *threadgroup.ThreadGroup
-	mu      sync.Mutex
-	state   map[string]string
-	dones   map[string]func()
-	ctxs    map[string]context.Context
-	stopped chan struct{}
+	tg       *threadgroup.ThreadGroup
+	mu       sync.Mutex
+	state    map[string]string
+	dones    map[string]func()
+	ctxs     map[string]context.Context
+	stopped  chan struct{}
 	stopped2 chan struct{}
-	n       int
-	badCtx  string
+	n        int
+	badCtx   string
+	// threads that join with AddContext(parent): the parent and its cancel func
+	parents map[string]context.Context
+	cancels map[string]context.CancelFunc
 }
 
 func newTGDirect() *tgDirect {
 	return &tgDirect{tg: threadgroup.New(), state: map[string]string{}, dones: map[string]func(){}, ctxs: map[string]context.Context{}, stopped: make(chan struct{}), stopped2: make(chan struct{})}
 }
 
+// withParents gives the listed threads a cancellable parent context for AddContext.
+func (d *tgDirect) withParents(ts []string) *tgDirect {
+	d.parents, d.cancels = map[string]context.Context{}, map[string]context.CancelFunc{}
+	for _, t := range ts {
+		d.parents[t], d.cancels[t] = context.WithCancel(context.Background())
+	}
+	return d
+}
+
+func (d *tgDirect) cancelParent(t string) {
+	d.mu.Lock()
+	cancel, ctx, live := d.cancels[t], d.ctxs[t], d.state[t] == "live"
+	d.mu.Unlock()
+	if cancel == nil {
+		return
+	}
+	cancel()
+	if live && ctx != nil {
+		// the member's context must follow its parent
+		select {
+		case <-ctx.Done():
+		case <-time.After(settleDeadline):
+			d.mu.Lock()
+			d.badCtx = "context of member " + t + " was not cancelled when its parent was"
+			d.mu.Unlock()
+		}
+	}
+}
+
 func (d *tgDirect) add(t string) {
 	d.mu.Lock()
 	defer d.mu.Unlock()
+	if parent, ok := d.parents[t]; ok {
+		// AddContext with a parent that may already be cancelled: the thread still JOINS (and is handed a
+		// cancelled context); what Add counted is given back by the returned func
+		ctx, cancel, err := d.tg.AddContext(parent)
+		switch {
+		case err == nil:
+			d.state[t] = "live"
+			d.dones[t] = cancel
+			d.ctxs[t] = ctx
+			if parent.Err() != nil && ctx.Err() == nil {
+				select {
+				case <-ctx.Done():
+				case <-time.After(settleDeadline):
+					d.badCtx = "AddContext with a cancelled parent returned a live context"
+				}
+			}
+		case errors.Is(err, threadgroup.ErrClosed):
+			d.state[t] = "refused"
+		default:
+			d.state[t] = "errored(" + err.Error() + ")"
+		}
+		return
+	}
 	d.n++
 	if d.n%2 == 0 { // alternate between the two ways of joining
 		ctx, cancel, err := d.tg.AddContext(context.Background())
@@ -159,6 +216,8 @@ func (d *tgDirect) observe() tgObs {
 			o.Done = append(o.Done, t)
 		case "refused":
 			o.Refused = append(o.Refused, t)
+		default:
+			o.Refused = append(o.Refused, "!"+t+":"+s) // neither joined nor refused by a closed group
 		}
 	}
 	sort.Strings(o.Live)
@@ -370,6 +429,8 @@ func (r *tgRHP4) stop() {
 	r.stopOnce.Do(func() { go func() { r.srv.Close(); close(r.stopped) }() })
 }
 
+func (r *tgRHP4) cancelParent(string) {} // rhp4.Server members join with Add: no parent context
+
 func (r *tgRHP4) stop2() {
 	go func() { r.srv.Close(); close(r.stopped2) }()
 }
@@ -432,10 +493,10 @@ func (r *tgRHP4) cleanup() bool {
 
 var _ net.Conn
 
-func newTGTarget(kind string) (tgTarget, error) {
+func newTGTarget(kind string, ctxThreads []string) (tgTarget, error) {
 	switch kind {
 	case "threadgroup":
-		return newTGDirect(), nil
+		return newTGDirect().withParents(ctxThreads), nil
 	case "rhp4":
 		return newTGRHP4()
 	case "stub-lateadd":
@@ -444,8 +505,8 @@ func newTGTarget(kind string) (tgTarget, error) {
 	return nil, fmt.Errorf("unknown target %q", kind)
 }
 
-func runTGPath(kind string, path []tgStep, res *hx.Result) (sig, desc string, at int) {
-	tgt, err := newTGTarget(kind)
+func runTGPath(kind string, path []tgStep, res *hx.Result, ctxThreads []string) (sig, desc string, at int) {
+	tgt, err := newTGTarget(kind, ctxThreads)
 	if err != nil {
 		return "infra", err.Error(), -1
 	}
@@ -464,6 +525,8 @@ func runTGPath(kind string, path []tgStep, res *hx.Result) (sig, desc string, at
 			tgt.stop()
 		case "Stop2Begin":
 			tgt.stop2()
+		case "CancelParent":
+			tgt.cancelParent(st.Act.P)
 		default:
 			return "infra", "unknown action " + st.Act.Op, i
 		}
@@ -516,9 +579,9 @@ func TestReplayTG(t *testing.T) {
 			go func(kind string, p []tgStep, pi int) {
 				defer wg.Done()
 				defer func() { <-sem }()
-				sig, desc, at := runTGPath(kind, p, res)
+				sig, desc, at := runTGPath(kind, p, res, in.CtxThreads)
 				if sig != "" && sig != "infra" {
-					sig, desc, at = runTGPath(kind, p, res)
+					sig, desc, at = runTGPath(kind, p, res, in.CtxThreads)
 				}
 				if sig == "infra" {
 					res.Note("tg path %d: %s", pi, desc)
@@ -530,7 +593,7 @@ func TestReplayTG(t *testing.T) {
 					if upto > len(p) {
 						upto = len(p)
 					}
-					res.Mismatch(sig, fmt.Sprintf("%s path %d step %d: %s", kind, pi, at, desc), map[string]any{"kind": "tg-path", "target": kind, "threads": in.Threads, "path": p[:upto]})
+					res.Mismatch(sig, fmt.Sprintf("%s path %d step %d: %s", kind, pi, at, desc), map[string]any{"kind": "tg-path", "target": kind, "threads": in.Threads, "ctxThreads": in.CtxThreads, "path": p[:upto]})
 				}
 				res.Count("paths", 1)
 				if pi == 0 && kind == in.Targets[0] {
